@@ -32,8 +32,21 @@ def family_gen(ctx, cfg_syntax, tag, scope=None):
         raise Infra("ShapeFam printed nothing")
     tp = os.path.join(ctx.work, "trees_%s.ndjson" % tag)
     with open(tp, "w") as f:
+        dflt = {"account": ("a", {"t": "acct", "v": "a"}), "asset": ("USD", {"t": "asset", "v": "USD"}), "number": ("5", {"t": "num", "v": 5}),
+                "monetary": ("USD 10", {"t": "mon", "a": "USD", "v": 10}), "portion": ("1/2", {"t": "portion", "n": 1, "d": 2}), "string": ("key", {"t": "str", "v": "key"})}
         for i, t in enumerate(trees):
-            t.update(id=i, bal={}, meta={}, rawvars={}, varvals={})
+            # inputs under which a well-formed member executes: every supplied variable has a value of its declared type
+            rawvars, varvals, meta = {}, {}, {}
+            for d in t["vars"]:
+                if d["origin"]["k"] == "none":
+                    if d["type"] in dflt and d["name"] not in rawvars:
+                        rawvars[d["name"]], varvals[d["name"]] = dflt[d["type"]]
+                elif d["origin"]["name"] == "meta":
+                    meta = {"a": {"key": "some text"}}
+                    varvals[d["name"]] = {"t": "str", "v": "some text"}
+                else:
+                    varvals[d["name"]] = {"t": "none"}
+            t.update(id=i, bal={"a": {"USD": 100}, "b": {"USD": 50}}, meta=meta, rawvars=rawvars, varvals=varvals)
             f.write(json.dumps(t) + "\n")
     g = ctx.tlc("Syntax", cfg_syntax, env={"TREES": tp}, workers=8, label="Syntax prints the family (%s)" % tag, timeout=3600)
     if g["tlc_error"] or not g["finished"] or g["inv_violated"]:
